@@ -138,7 +138,10 @@ def gen_history(rng, f):
         ops.append(tools)
     past = rng.choice([0, 0, 1, 2])
     ending = rng.choice(['stop_sections', 'resolve', 'stop_sections'])
-    return {'mode': mode, 'entry': entry, 'ops': ops, 'past': past, 'ending': ending}
+    # the grading script made a (passing) run-time assertion before it separated the file: the assertion tool then already listens
+    # to the events the sections use
+    before = 'assertion-before-separating' if entry == 'separate' and rng.random() < 0.3 else None
+    return {'mode': mode, 'entry': entry, 'ops': ops, 'past': past, 'ending': ending, 'before': before}
 
 
 def check(ctx, case):
@@ -161,6 +164,17 @@ def check(ctx, case):
             set_source(text, sections=f['pattern'] or True, independent=independent)
         else:
             contextualize_report(text)
+            if h.get('before') == 'assertion-before-separating':
+                # (an organised check is declared - which is what makes the assertion tool hook the resolve event - and a plain
+                # assertion made)
+                from pedal.assertions.runtime import assert_equal
+                from pedal.assertions.organizers import phase
+
+                @phase('basics')
+                def check_basics():
+                    return True
+                assert_equal(1, 1)
+                ctx.count('histories_with_an_assertion_before_separating')
             if f['pattern'] is None:
                 separate_into_sections(independent=independent)
             else:
@@ -221,6 +235,11 @@ def check(ctx, case):
                 elif tool == 'run' and parses and planted.get('kind') not in ('tifa', 'tifa-loop') and (independent or all(
                         p.get('kind') not in ('tifa', 'tifa-loop', 'runtime') for p in f['planted'][:k])):
                     sbx.run()
+                elif tool == 'run' and not parses and independent and planted.get('kind') == 'syntax':
+                    # running a section that does not compile: the failure is a run-time feedback about a SyntaxError, on the
+                    # line of the original file
+                    sbx.run()
+                    ctx.count('runs_of_sections_that_do_not_compile')
                 elif tool == 'call' and parses and planted.get('kind') == 'callable' and 'run' in tools[:tools.index('call')] and \
                         (independent or all(p.get('kind') not in ('tifa', 'tifa-loop', 'runtime') for p in f['planted'][:k])):
                     sbx.call(planted['fname'], 7)
@@ -268,6 +287,9 @@ def check(ctx, case):
                     if len(ps) == 1:
                         exp_line = line_of(text, ps[0]['token'])
                         fam = 'tifa-loop'
+                elif cat == 'runtime' and tool == 'run' and not parses:
+                    exp_line = line_of(text, planted['token'])
+                    fam = 'runtime-run-of-a-section-that-does-not-compile'
                 elif cat == 'runtime':
                     ps = [p for p in cands if p.get('kind') in ('runtime', 'callable')]
                     if tool == 'call':
